@@ -1014,12 +1014,15 @@ _dispatch_sync_complete_recurse(dispatch_queue_t dq, dispatch_queue_t stop_dq,
 	bool barrier = (dc_flags & DC_FLAG_BARRIER);
 	do {
 		if (dq == stop_dq) return;
+		// read the next queue of the chain while dq is still owned: once dq is
+		// given up, a pending legacy retarget of dq may run (and dq may go away)
+		dispatch_queue_t tq = dq->do_targetq;
 		if (barrier) {
 			dx_wakeup(dq, 0, DISPATCH_WAKEUP_BARRIER_COMPLETE);
 		} else {
 			_dispatch_lane_non_barrier_complete(upcast(dq)._dl, 0);
 		}
-		dq = dq->do_targetq;
+		dq = tq;
 		barrier = (dq->dq_width == 1);
 	} while (unlikely(dq->do_targetq));
 }
